@@ -551,6 +551,14 @@ def render(t, ph):
         return render(t.args[0].args[0], ph).join(render(a, ph) for a in t.args[1].items)
     if isinstance(t, App) and t.name in ('str', 'call:str') and len(t.args) == 1:
         return render(t.args[0], ph)
+    if isinstance(t, App) and t.name == 'apply' and isinstance(t.args[0], App) and t.args[0].name == 'attr:replace' \
+            and len(t.args) == 3:
+        return render(t.args[0].args[0], ph).replace(render(t.args[1], ph), render(t.args[2], ph))
+    if isinstance(t, App) and t.name == 'binop:Add' and len(t.args) == 2:
+        return render(t.args[0], ph) + render(t.args[1], ph)
+    if isinstance(t, Tup) and t.kind == 'list':
+        # str() of a list of strings, as an f-string prints it
+        return '[' + ', '.join(repr(render(i, ph)) for i in t.items) + ']'
     if isinstance(t, Ite):
         return render(t.a if _concrete_bool(t.cond, ph) else t.b, ph)
     raise AnalysisError('C09.R8', 'metadata string', f'string-building term not understood: {show(t, 160)}')
